@@ -539,8 +539,26 @@ func commonGraphSchema(g, variant int) *sch.Schema {
 		nsName = "NS"
 		ref = func(n string) sch.Type { return sch.Ref("NS::" + n) }
 	}
-	ns := sch.NS{Name: nsName}
 	bs := []int{g % 10, (g / 10) % 10, (g / 100) % 10}
+	if variant >= 4 {
+		// split placements: each common type lives either in the empty namespace or in NS (bit i of variant-4), all
+		// references are unqualified, the entity type and the action that use them live in NS - which declaration an
+		// unqualified name denotes (or that it denotes none) depends on the namespace of the referring declaration
+		top, in := sch.NS{}, sch.NS{Name: "NS"}
+		for i, n := range xyz {
+			c := sch.Common{Name: n, T: commonBody(bs[i], ref)}
+			if (variant-4)&(1<<uint(i)) != 0 {
+				in.Commons = append(in.Commons, c)
+			} else {
+				top.Commons = append(top.Commons, c)
+			}
+		}
+		ctx := ref("Y")
+		in.Entities = []sch.Entity{{Name: "E", HasShape: true, Shape: []sch.Attr{sch.A("a", ref("X")), sch.AOpt("b", sch.SetOf(ref("Z")))}, Tags: &sch.Type{K: sch.TRef, Name: "Z"}}}
+		in.Actions = []sch.Action{{Name: "act", Applies: &sch.Applies{Principals: []string{"E"}, Resources: []string{"E"}, Context: &ctx}}}
+		return &sch.Schema{NS: []sch.NS{top, in}}
+	}
+	ns := sch.NS{Name: nsName}
 	for i, n := range xyz {
 		ns.Commons = append(ns.Commons, sch.Common{Name: n, T: commonBody(bs[i], ref)})
 	}
@@ -576,11 +594,12 @@ func commonGraphCyclic(g int) bool {
 
 func TestCommonTypeGraphs(t *testing.T) {
 	const sub = "common-graphs"
-	variants := 4
+	variants := 12
 	n := 0
 	for g := 0; g < 1000; g++ {
 		for variant := 0; variant < variants; variant++ {
-			if !ev.Thorough() && variant != g%variants {
+			// quick: one of the four single-namespace placements and one (pseudo-randomly chosen) split placement per graph
+			if !ev.Thorough() && variant != g%4 && variant != 4+int((uint32(g)*2654435761>>13)%8) {
 				continue
 			}
 			n++
@@ -601,7 +620,7 @@ func TestCommonTypeGraphs(t *testing.T) {
 				continue
 			}
 			et := "E"
-			if variant == 1 || variant == 2 {
+			if variant == 1 || variant == 2 || variant >= 4 {
 				et = "NS::E"
 			}
 			at := strings.TrimSuffix(et, "E") + "Action"
@@ -618,9 +637,9 @@ func TestCommonTypeGraphs(t *testing.T) {
 	if ev.First() {
 		size := 1000
 		if ev.Thorough() {
-			size = 4000
+			size = 12000
 		}
-		ev.R.Space("common-type graphs on {X,Y,Z}, bodies in {Long, ref, Set<ref>, {f: ref}} (1000) x placements (quick: one of 4 per graph, thorough: all 4)", size)
+		ev.R.Space("common-type graphs on {X,Y,Z}, bodies in {Long, ref, Set<ref>, {f: ref}} (1000) x placements incl. every split over the empty namespace and NS (quick: one of 12 per graph, thorough: all 12)", size)
 	}
 }
 
